@@ -6,7 +6,7 @@ use encoding_rs::*;
 use serde_json::{json, Value};
 use std::time::Instant;
 
-pub const RULE: &str = "case = byte string given to Encoding::for_label / for_label_no_replacement: the 228 labels x every single-byte substitution, insertion and deletion, every ASCII case mask (all masks for labels up to 12 bytes, seeded random masks beyond), padding with every combination of up to 2 (selected labels: 3) leading and trailing bytes from {09 0A 0B 0C 0D 20 00 A0 85}, inner whitespace, over-long strings, empty / whitespace-only strings, seeded random strings over the label alphabet, every Encoding::name(). Oracle = the Standard's 'get an encoding' (strip leading/trailing TAB LF FF CR SPACE, ASCII-lowercase, exact match) on the frozen label table; for_label_no_replacement == for_label with replacement mapped to None; never a panic. Non-trivial = input that is not itself one of the 228 exact spellings; distinct = distinct byte string (by construction within a family, by content hash for random strings).";
+pub const RULE: &str = "case = byte string given to Encoding::for_label / for_label_no_replacement: the 228 labels x every single-byte substitution, insertion and deletion, every ASCII case mask (all masks for labels up to 12 bytes, seeded random masks beyond), padding with every combination of up to 2 (selected labels: 3) leading and trailing bytes from {09 0A 0B 0C 0D 20 00 A0 85}, label + whitespace + every byte (and mirrored), inner whitespace, over-long strings, empty / whitespace-only strings, seeded random strings over the label alphabet, every Encoding::name(). Oracle = the Standard's 'get an encoding' (strip leading/trailing TAB LF FF CR SPACE, ASCII-lowercase, exact match) on the frozen label table; for_label_no_replacement == for_label with replacement mapped to None; never a panic. Non-trivial = input that is not itself one of the 228 exact spellings; distinct = distinct byte string (by construction within a family, by content hash for random strings).";
 
 fn model(label: &[u8]) -> Option<&'static Encoding> {
     let is_ws = |b: u8| matches!(b, 0x09 | 0x0A | 0x0C | 0x0D | 0x20);
@@ -144,6 +144,25 @@ pub fn run(ctx: &Ctx) -> i32 {
                 v.extend_from_slice(l);
                 v.extend_from_slice(q);
                 st.class("padding");
+                if !one(&v, st, false) {
+                    return;
+                }
+            }
+        }
+        // label, whitespace, then any single byte - and the mirror image (the trailing / leading
+        // phases must reject everything that is not one of the five whitespace bytes)
+        for w in [0x09u8, 0x0A, 0x0C, 0x0D, 0x20] {
+            for b in 0..=255u8 {
+                let mut v = l.clone();
+                v.push(w);
+                v.push(b);
+                st.class("label-whitespace-byte");
+                if !one(&v, st, false) {
+                    return;
+                }
+                let mut v = vec![b, w];
+                v.extend_from_slice(l);
+                st.class("byte-whitespace-label");
                 if !one(&v, st, false) {
                     return;
                 }
